@@ -54,7 +54,13 @@ class Interpreter:
                 attached = root.withParent(self.environment)
             env = environment
         try:
-            result = parse_script(script, filename).evaluate(env)
+            try:
+                result = parse_script(script, filename).evaluate(env)
+            except RecursionError:
+                # see NodeBlock.evaluate
+                raise CklRuntimeError(
+                    ValueString("ERROR"), "Recursion too deep"
+                ) from None
             if result.isReturn():
                 return result.value
             elif result.isBreak():
